@@ -230,6 +230,11 @@ def s3_sites(tidx, spec, cfg):
     return out
 
 
+# non-retryable failures of any family: service errors, programming errors and
+# plain OSErrors (which must not be mistaken for the retryable socket errors)
+FATAL_EXC = ['client', 'client', 'simfault', 'value', 'eio', 'permission', 'runtime']
+
+
 def gen_fatal_fault(rng, tidx, spec, cfg, kinds=None):
     """One fault from the C03 list for this transfer."""
     ty = spec['type']
@@ -250,7 +255,7 @@ def gen_fatal_fault(rng, tidx, spec, cfg, kinds=None):
     if k == 's3':
         site = rng.choice(s3_sites(tidx, spec, cfg))
         f = {'site': 's3', 'when': rng.choice(['before', 'after']),
-             'exc': rng.choice(['client', 'simfault', 'value'])}
+             'exc': rng.choice(FATAL_EXC)}
         f.update(site)
         return [f]
     if k == 'src':
@@ -259,16 +264,18 @@ def gen_fatal_fault(rng, tidx, spec, cfg, kinds=None):
                      'nth': rng.randint(0, 3), 'exc': 'oserror'}]
         return [{'site': 'src', 't': tidx, 'nth': rng.randint(0, 3), 'exc': 'oserror'}]
     if k == 'cbq':
-        return [{'site': 'cb', 't': tidx, 'kind': 'queued', 'sub': 0, 'exc': 'simfault'}]
+        return [{'site': 'cb', 't': tidx, 'kind': 'queued', 'sub': 0,
+                 'exc': rng.choice(['simfault', 'simfault', 'eio', 'value'])}]
     if k == 'cbp':
         return [{'site': 'cb', 't': tidx, 'kind': 'progress', 'sub': 0,
-                 'nth': rng.randint(0, 3), 'exc': 'simfault'}]
+                 'nth': rng.randint(0, 3),
+                 'exc': rng.choice(['simfault', 'simfault', 'eio', 'permission', 'value'])}]
     if k == 'stream_fatal':
         rngs = download_ranges(spec['size'], cfg) if is_multipart(spec, cfg) else [None]
         r = rng.choice(rngs)
         return [{'site': 'stream', 'key': 'o%d' % tidx, 'range': r, 'attempt': 0,
                  'at': rng.randint(0, max(0, range_len(spec['size'], cfg, r))),
-                 'exc': rng.choice(['client', 'value', 'simfault'])}]
+                 'exc': rng.choice(FATAL_EXC)}]
     if k == 'exhaust':
         rngs = download_ranges(spec['size'], cfg) if is_multipart(spec, cfg) else [None]
         r = rng.choice(rngs)
@@ -632,6 +639,23 @@ def gen_C06(rng):
 def gen_C07(rng):
     sc = base(rng, ALL_TYPES, nmax=3, tight=rng.random() < 0.5, nsubs=2,
               short_reads=True, maxsize=30)
+    r = rng.random()
+    if r < 0.35:
+        # a request that fails while (or after) the cancel lands - most often
+        # the transfer's final request: the cancellation recorded first must
+        # stay the reported outcome
+        i = rng.randrange(len(sc['transfers']))
+        t = sc['transfers'][i]
+        sites = s3_sites(i, t, sc['config'])
+        site = sites[-1] if rng.random() < 0.7 else rng.choice(sites)
+        if t['type'] == 'download' and t.get('dst') == 'path' and rng.random() < 0.5:
+            sc['faults'].append({'site': 'fs', 'op': 'rename', 'dest': '/d/down%d' % i,
+                                 'exc': 'oserror'})
+        else:
+            f = {'site': 's3', 'when': rng.choice(['before', 'after']),
+                 'exc': rng.choice(FATAL_EXC)}
+            f.update(site)
+            sc['faults'].append(f)
     add_cancel_script(rng, sc)
     return sc
 
@@ -662,6 +686,11 @@ def gen_C09(rng):
     for t in sc['transfers']:
         if len(t['subs']) < 2 and rng.random() < 0.3:
             t['subs'].append({})
+    if rng.random() < 0.2 and not sc.get('driver'):
+        # a second manager on the same client is shut down before / while this
+        # one transfers (applications create one manager per batch)
+        sc['knobs']['sibling'] = rng.choice(['before', 'during'])
+        sc['knobs']['sibling_at'] = rng.randrange(8)
     return sc
 
 
@@ -882,8 +911,45 @@ def io_pressure(rng):
 
 
 def gen_C18(rng):
-    if rng.random() < 0.15:
+    r0 = rng.random()
+    if r0 < 0.15:
         return io_pressure(rng)
+    if r0 < 0.35:
+        # stream transfers sharing the in-memory windows (parts finishing out of
+        # order, one transfer possibly failing or cancelled), then a fresh
+        # transfer of the same kind: the shared permits must all be back
+        kind = rng.choice(['down', 'down', 'up'])
+        sc = contention(rng, kind)
+        sc['knobs']['latency'] = wchoice(rng, [('random', 4), ('slow_first', 3), ('none', 1)])
+        cfg = sc['config']
+        n = len(sc['transfers'])
+        script = [['submit', i] for i in range(n)]
+        r = rng.random()
+        if r < 0.25:
+            i = rng.randrange(n)
+            sc['faults'] += gen_fatal_fault(rng, i, sc['transfers'][i], cfg)
+            _dedupe_stream(sc)
+        elif r < 0.45:
+            script += [['wait_step', rng.randint(0, est_steps(sc['transfers'], cfg))],
+                       ['cancel', rng.randrange(n), True]]
+        script += [['result', i] for i in range(n)]
+        for _ in range(rng.choice([1, 1, 2])):
+            ft = gen_transfer(rng, cfg, [('download', 1)] if kind == 'down' else [('upload', 1)])
+            ft['size'] = max(ft['size'], cfg['multipart_threshold'] +
+                             cfg['multipart_chunksize'] * rng.randint(1, 4))
+            for sub in ft['subs']:
+                if sub.get('provide_size') is not None:
+                    sub['provide_size'] = ft['size']
+            if kind == 'down':
+                ft['dst'] = 'nonseekable'
+                ft.pop('prev', None)
+            elif ft.get('src') == 'path':
+                ft['src'] = rng.choice(['seekable', 'nonseekable'])
+                ft['offset'] = 0
+            script.append(['fresh', ft])
+        script.append(['shutdown'])
+        sc['driver'] = script
+        return sc
     sc = base(rng, ALL_TYPES, nmax=4, tight=rng.random() < 0.4, short_reads=True,
               maxsize=28)
     while len(sc['transfers']) < 2:
